@@ -499,11 +499,25 @@ const allocStatement = "no make([]T, n) in the input-handling packages takes its
 var reviewedGlobals = map[string]string{}
 
 func globalStateRule(c *Ctx) {
+	globalStateRuleFor(modPKO+"/internal/packages", pkgTransform, pkgUtils)(c)
+}
+
+func globalStateRuleFor(scope ...string) func(c *Ctx) {
+	return func(c *Ctx) { globalStateRuleIn(c, scope) }
+}
+
+func globalStateRuleIn(c *Ctx, scope []string) {
 	p := c.P
 	n := 0
 	for _, fn := range p.productFuncs() {
 		pk := funcPkgPath(fn)
-		if !strings.HasPrefix(pk, modPKO+"/internal/packages") && pk != pkgTransform && pk != pkgUtils {
+		inScope := false
+		for _, s := range scope {
+			if strings.HasPrefix(pk, s) {
+				inScope = true
+			}
+		}
+		if !inScope {
 			continue
 		}
 		if fn.Name() == "init" || strings.HasPrefix(fn.Name(), "init#") {
